@@ -88,6 +88,7 @@ def printed(output: str, tag: str):
 # binding table: abstract sequence type -> XPath text (dumb 1:1 rendering)
 
 SP = ' '      # mandatory white space
+PI_FORMS = {'pistr': "'%s'", 'piws': '" %s  "', 'pitab': '"\t%s\n"', 'picr': '"\r\n %s"'}
 
 
 def item_tokens(it, star: bool = False) -> list[str]:
@@ -101,12 +102,15 @@ def item_tokens(it, star: bool = False) -> list[str]:
     if k == 'empty':
         return ['empty-sequence', '(', ')']
     if k == 'pi':
-        return ['processing-instruction', '('] + ([] if it['name'] == '*' else [it['name']]) + [')']
+        # argument forms of processing-instruction(N): NCName, or a string literal whose
+        # fn:normalize-space() is the target (XPath 3.1 2.5.5.3)
+        arg = [] if it['name'] == '*' else [PI_FORMS.get(star, '%s') % it['name']]
+        return ['processing-instruction', '('] + arg + [')']
     if k == 'document':
         return ['document-node', '('] + ([] if it['elem']['k'] == 'none' else item_tokens(it['elem'], star)) + [')']
     if k in ('element', 'attribute'):
         if it['name'] == '*' and it['ty'] == '*':
-            return [k, '(', '*', ')'] if star else [k, '(', ')']
+            return [k, '(', '*', ')'] if star is True else [k, '(', ')']
         toks = [k, '(', it['name']]
         if it['ty'] != '*':
             toks += [',', 'xs:' + it['ty']]
@@ -159,6 +163,8 @@ def spell(toks: list[str], how: str) -> str:
 def type_text(st, how: str = 'min') -> str:
     if how == 'star':        # element(*) / attribute(*) for element() / attribute()
         return spell(type_tokens(st, True), 'min')
+    if how in PI_FORMS:      # string-literal forms of the name argument of processing-instruction()
+        return spell(type_tokens(st, how), 'min')
     return spell(type_tokens(st), how)
 
 
@@ -255,25 +261,28 @@ LEX = {
     'long': ['7', '-9223372036854775808', '0', '9223372036854775807'], 'int': ['7', '-2147483648', '0', '2147483647'],
     'short': ['-7', '8', '0', '32767'], 'byte': ['7', '-128', '0', '127'],
     'nonNegativeInteger': ['7', '0', '99999999999999999999'], 'positiveInteger': ['7', '1', '99999999999999999999'],
-    'unsignedLong': ['7', '0', '18446744073709551615'], 'unsignedInt': ['3000000000', '0', '7'],
-    'unsignedShort': ['40000', '0', '7'], 'unsignedByte': ['200', '0', '7'],
-    'float': ['1.5', '-2.5', '0', 'INF', 'NaN', '-0'], 'double': None, 'boolean': None,
-    'duration': ['P1Y2DT3H', '-P1Y2M3DT4H5M6.7S', 'PT0S', '-PT0.5S', '-P3DT10H30M'],
+    'unsignedLong': ['7', '0', '18446744073709551615'], 'unsignedInt': ['3000000000', '0', '7', '4294967295'],
+    'unsignedShort': ['40000', '0', '7', '65535'], 'unsignedByte': ['200', '0', '7', '255'],
+    'float': ['1.5', '-1e-46', '0', 'INF', 'NaN', '-0', '-2.5', '1e-46', '1e-45', '3.4028235e38', '3.5e38', '-3.5e38'], 'double': None, 'boolean': None,
+    'duration': ['P1Y2DT3H', '-P1Y2M3DT4H5M6.7S', 'PT0S', '-PT0.5S', '-P3DT10H30M', 'P0D', '-P0D',
+                 'PT100000000000000000000S'],
     'yearMonthDuration': ['P1Y2M', '-P1Y2M', 'P0M', 'P13M'],
     'dayTimeDuration': ['P1DT2H', '-P3DT10H30M', 'PT0S', '-PT0.5S', '-PT3H', 'PT0.5S'],
     'dateTime': ['2001-02-03T04:05:06', '-0044-03-15T12:00:00Z', '1999-12-31T23:59:59.999+14:00',
-                 '2000-02-29T00:00:00-05:00'],
+                 '2000-02-29T00:00:00-05:00', '-0001-12-31T24:00:00', '10000-01-01T00:00:00+14:00',
+                 '0000-01-01T00:00:00'],
     'date': ['2001-02-03', '-0044-03-15', '1999-12-31+14:00', '2000-02-29Z'],
     'time': ['04:05:06', '23:59:59.999Z', '00:00:00-05:00', '12:30:00+05:30'],
-    'gYearMonth': ['2001-02', '-0044-03', '1999-12Z'], 'gYear': ['2001', '-0044', '1999+14:00'],
+    'gYearMonth': ['2001-02', '-0044-03', '1999-12Z'], 'gYear': ['2001', '-0044', '1999+14:00', '0000', '10000'],
     'gMonthDay': ['--02-03', '--02-29', '--12-31Z'], 'gDay': ['---03', '---31Z'], 'gMonth': ['--02', '--12Z'],
     'hexBinary': ['0fb7', '', 'FF'], 'base64Binary': ['YWJj', '', 'YQ=='],
     'anyURI': ['http://example.com/a', '', 'b/c#d', 'urn:p'], 'QName': ['xs:a', 'a', 'fn:b'],
 }
 NATIVE = {'string': ["'a'", "''", "'b c'", "'en'", "'a1'", "'2001-02-03'"],
           'integer': ['1', '-3', '0', '99999999999999999999', '2', '65'],
-          'decimal': ['1.5', '-2.5', '0.0', '100.25'],
-          'double': ['1.5e0', '-2.5e0', '0e0', "xs:double('INF')", "xs:double('NaN')", "xs:double('-0')"],
+          'decimal': ['1.5', '-2.5', '0.0', '100.25', '123456789012345678901234567890.123456789', '-0.0'],
+          'double': ['1.5e0', '-2.5e0', '0e0', "xs:double('INF')", "xs:double('NaN')", "xs:double('-0')",
+                     "xs:double('5e-324')", "xs:double('1e-400')", "xs:double('1.8e308')", "xs:double('-1e-400')"],
           'boolean': ['true()', 'false()']}
 NODE_PATH = {('document', 'a'): '$d', ('element', 'a'): '$d/a', ('element', 'b'): '$d/a/b',
              ('attribute', 'x'): '$d/a/@x', ('text', ''): '$d/a/text()', ('comment', ''): '$d/comment()',
@@ -410,12 +419,24 @@ def _alarm(signum, frame):
 
 
 def guarded(fn):
-    """outcome classes: value | ('err', code) | ('escaped', Class) | ('hang',)"""
+    """outcome classes: value | ('err', code) | ('escaped', Class) | ('hang',).
+    A hang is reported only if the evaluation also exceeds a second, much longer limit: on a machine
+    shared by many checks a 20 s alarm can fire on a millisecond evaluation."""
+    out = _guarded(fn, 20)
+    if out == ('hang',):
+        out = _guarded(fn, 45)
+    return out
+
+
+def _guarded(fn, seconds: int):
     from elementpath.exceptions import ElementPathError
     signal.signal(signal.SIGALRM, _alarm)
-    signal.alarm(10)
     try:
-        return ('value', fn())
+        signal.alarm(seconds)
+        try:
+            return ('value', fn())
+        finally:
+            signal.alarm(0)         # before any handler runs: the alarm must not fire inside one
     except ElementPathError as e:
         return ('err', (e.code or '').split(':')[-1])
     except Hang:
@@ -424,8 +445,6 @@ def guarded(fn):
         return ('escaped', 'RecursionError')
     except Exception as e:  # noqa
         return ('escaped', type(e).__name__)
-    finally:
-        signal.alarm(0)
 
 
 def same_item(a, b, by_source: bool = False) -> bool:
@@ -436,6 +455,8 @@ def same_item(a, b, by_source: bool = False) -> bool:
     if by_source and hasattr(a, 'source') and hasattr(a, 'parser'):
         # a function / map / array written as a literal is a new item at every evaluation
         return re.sub(r' at 0x[0-9a-f]+', '', a.source) == re.sub(r' at 0x[0-9a-f]+', '', b.source)
+    if isinstance(a, float) and a != a:
+        return b != b                       # NaN is the same value as NaN here
     if isinstance(a, (bool, int, float, str, Decimal)):
         return a == b
     try:
@@ -519,6 +540,16 @@ def edge_cases(tier: str, action: str, st, v, vtext: str) -> list[dict]:
     if t_star != t_min:
         add(ttext=t_star, spelling='star')
     add(src=f'({vtext})' if len(v) == 1 else vtext, srckind='lit')
+    if st['it']['k'] == 'pi' and st['it']['name'] != '*':
+        for how in PI_FORMS:
+            add(ttext=type_text(st, how), spelling=how)
+    if len(v) == 1 and v[0]['k'] == 'atom' and st['it']['k'] == 'atomic' and vtext not in ('true()', 'false()'):
+        # the other concrete values of the same abstract atom: boundary values of the type's value space
+        t = v[0]['t']
+        forms = NATIVE[t] if t in NATIVE else LEX[t]
+        for k in range(1, len(forms)):
+            lit = item_text(v[0], k)
+            add(src=f'({lit})', vtext=lit, srckind='variant')
     if op == 'treat' or tier == 'thorough':
         add(src='($v treat as item()*)', srckind='nested')     # history: judgement after a treat as
         add(ctx='doc')                                           # context item = the document node
@@ -543,12 +574,24 @@ def features_of(case: dict, st, v, expected: str, observed: str) -> dict:
                 exp_verdict=verdict[expected], obs_verdict=verdict.get(observed, observed), **traits)
 
 
+_constructible: dict = {}
+
+
+def constructible(text: str) -> bool:
+    if text not in _constructible:
+        e = env()
+        _constructible[text] = guarded(lambda: e.value(text))[0] == 'value'
+    return _constructible[text]
+
+
 def worker(job):
     tier, edges = job
     fails = []
     n = 0
     for (action, st, v, vtext, expected, vi, ti) in edges:
         for case in edge_cases(tier, action, st, v, vtext):
+            if case['srckind'] == 'variant' and not constructible(case['vtext']):
+                continue            # lexical form rejected by the constructor (e.g. year 0000 with XSD 1.0)
             obs = evaluate(case)
             n += 1
             if obs != expected:
@@ -856,6 +899,9 @@ def run_calls(job):
     out = []
     ctx_item = e.doc.getroot()
     for (si, sig, args, argtexts) in calls:
+        if not all(constructible(t) for t in argtexts):
+            out.append((si, args, 'direct', '', 'unconstructible', None, '', argtexts))
+            continue            # a lexical form the constructor rejects (year 0000 with XSD 1.0)
         variables = {f'a{n + 1}': e.value(t) for n, t in enumerate(argtexts)}
         variables['d'] = e.doc
         arglist = ', '.join(f'$a{n + 1}' for n in range(len(argtexts)))
